@@ -39,14 +39,6 @@ def run(ctx):
                         "Go map range order is arbitrary; the model ranges in insertion order; Props.C12.replacer_order_irrelevant covers prefix-free key sets, the generator discards the others (point names containing ')')",
                         "filepath.Ext on Unix, strings.TrimSuffix, fmt %d as modelled by FileManager.sib/dec",
                         "each *plugin.Generated is submitted once (Feed renames by writing f.Name of the submitted object)"]
-    if exe and ctx.replay:
-        rc, out = core.sh([exe, "replay", "-repo", core.REPO, "-file", ctx.replay])
-        if rc != 0:
-            raise core.MachineryError("c12 replay failed: " + out[-2000:])
-        for f in json.loads(out.strip().split("\n")[-1]):
-            ctx.add_violation(f["key"], f["what"], f["input"], f["expected"], f["observed"])
-        ctx.cov["evaluations"] = 1
-        return ctx.finish(rule="replay of one Feed history")
     if exe:
         rc, gen = core.sh([exe, "extract", "-repo", core.REPO])
         if rc != 0:
@@ -61,13 +53,16 @@ def run(ctx):
         if ctx.tier == "thorough":
             ctx.leanchecker(["ThriftVerif.Props.C12"])
     if exe:
-        parts = 5 if ctx.tier == "thorough" else 1
+        parts = 1 if ctx.replay else (5 if ctx.tier == "thorough" else 1)
         acc = None
         for part in range(parts):
             d = os.path.join(ctx.work, "part%d" % part)
             os.makedirs(d, exist_ok=True)
-            rc, out = core.sh([exe, "run", "-repo", core.REPO, "-dir", d, "-seed", str(ctx.seed), "-tier", ctx.tier,
-                               "-part", str(part), "-parts", str(parts)], timeout=3000)
+            if ctx.replay:
+                rc, out = core.sh([exe, "replay", "-repo", core.REPO, "-dir", d, "-file", ctx.replay], timeout=3000)
+            else:
+                rc, out = core.sh([exe, "run", "-repo", core.REPO, "-dir", d, "-seed", str(ctx.seed), "-tier", ctx.tier,
+                                   "-part", str(part), "-parts", str(parts)], timeout=3000)
             if rc != 0:
                 raise core.MachineryError("c12 run failed: " + out[-2000:])
             acc = merge_stats(acc, json.load(open(os.path.join(d, "stats.json"))))
@@ -83,6 +78,8 @@ def run(ctx):
                        distribution=acc["distribution"], exhaustive=False)
         for f in (acc.get("oracle_failures") or []):
             ctx.add_violation(f["key"], f["what"], f["input"], f["expected"], f["observed"])
+    if ctx.replay:
+        return ctx.finish(rule="replay of one recorded Feed history (full proof obligations re-checked; the history is run on the implementation, the model and the oracle)")
     return ctx.finish(rule="Feed histories: 16 fixed cases (the repo's pinned tests, the suspected defect, marker corner cases), renaming chains "
                            "of length 2..14, then seeded random histories (1-4 calls, quick: <=12 items, thorough: <=40) over small per-history pools of "
                            "names (incl. <base>_<k><ext> shapes), contents (0..n markers, marker-like text) and points (in and outside the marker alphabet); "
